@@ -303,13 +303,65 @@ fn main() {
         res.violation("panic", &p, json!({"note": "panic during exploration"}));
     }
     verif_sched::clear();
+    // ---- SAMPLED, labelled: free-running threads sign with different key snapshots at the same time (no scheduler:
+    // whatever state the signing functions share between callers is exercised by real parallelism); every header
+    // is checked with the independent canonicaliser and HMAC under the key its id names
+    let iters: usize = if thorough { 120_000 } else { 30_000 };
+    let bad: Arc<Mutex<Vec<String>>> = Arc::new(Mutex::new(Vec::new()));
+    let signed_total = Arc::new(AtomicU64::new(0));
+    let mut hs = Vec::new();
+    for t in 0..4usize {
+        let (bad, signed_total) = (bad.clone(), signed_total.clone());
+        hs.push(std::thread::spawn(move || {
+            let keys = [K1, K2, K3];
+            let url: hyper::Uri = "http://168.63.129.16/machine?comp=goalstate".parse().unwrap();
+            let mut extra = HashMap::new();
+            extra.insert("x-ms-version".to_string(), "2012-11-30".to_string());
+            for i in 0..iters {
+                let k = keys[(t + i) % 3];
+                let body = format!("body-{t}-{i}");
+                let req = match gpa_harness::common::hyper_client::build_request(hyper::Method::POST, &url, &extra, Some(body.as_bytes()), Some(k.0.to_string()), Some(k.1.to_string())) {
+                    Ok(r) => r,
+                    Err(e) => {
+                        bad.lock().unwrap().push(format!("build_request failed: {e}"));
+                        return;
+                    }
+                };
+                let headers: Vec<(String, Vec<u8>)> = req.headers().iter().map(|(n, v)| (n.as_str().to_string(), v.as_bytes().to_vec())).collect();
+                let authz = req.headers().get(hostcheck::AUTHZ).and_then(|v| v.to_str().ok()).unwrap_or("").to_string();
+                let target = req.uri().path_and_query().map(|p| p.as_str().to_string()).unwrap_or_default();
+                let canon = gpa_harness::verif::sigref::canonical("POST", body.as_bytes(), &headers, &target);
+                let want = gpa_harness::verif::sigref::mac_hex(k.1, &canon).unwrap_or_default();
+                let ok = match gpa_harness::verif::sigref::parse_authz(&authz) {
+                    Some((guid, mac)) => guid == k.0 && mac.eq_ignore_ascii_case(&want),
+                    None => false,
+                };
+                signed_total.fetch_add(1, Ordering::Relaxed);
+                if !ok {
+                    let other: Vec<&str> = keys.iter().filter(|o| gpa_harness::verif::sigref::mac_hex(o.1, &canon).map(|m| authz.to_lowercase().ends_with(&m.to_lowercase())).unwrap_or(false)).map(|o| o.0).collect();
+                    let mut b = bad.lock().unwrap();
+                    if b.len() < 5 {
+                        b.push(format!("thread {t} iteration {i}: header {authz:?} for key {} does not carry that key's MAC (it is the MAC under {:?})", k.0, other));
+                    }
+                    return;
+                }
+            }
+        }));
+    }
+    for h in hs {
+        let _ = h.join();
+    }
+    for b in bad.lock().unwrap().iter() {
+        res.violation("id-secret-mismatch:parallel-signers", b, json!({"family": "parallel-signers (sampled)", "threads": 4, "iterations_per_thread": iters}));
+    }
+    res.cov("parallel_signer_requests_sampled", signed_total.load(Ordering::Relaxed));
     res.cov("states", schedules);
     res.cov("transitions", transitions);
     res.cov("traces_validated_against_impl", schedules);
     res.cov("schedules_per_family", json!(per_family));
     res.cov("distinct_id_secret_pairings_observed", json!(pairings));
     res.cov("exhaustive", true);
-    res.cov("rule", "every interleaving of the key-actor operations of: K = [update_key(K2), clear_key, update_key(K3)] (starting from K1 latched), S1 = a proxied request (real listener, real sockets), S2 = WireServerClient::get_goalstate, S3 = ImdsClient::get_imds_instance_info (thorough: also all four together and two proxied requests); also with the mock rejecting the first own host call(s) with 403 (retry paths); each operation parks at the guarded scheduling point in KeyKeeperSharedState::get_key/set_key and is released one at a time; states = complete schedules, transitions = released operations; every request the mock host receives is verified from its raw bytes under the key registered for the announced id".to_string());
+    res.cov("rule", "every interleaving of the key-actor operations of: K = [update_key(K2), clear_key, update_key(K3)] (starting from K1 latched), S1 = a proxied request (real listener, real sockets), S2 = WireServerClient::get_goalstate, S3 = ImdsClient::get_imds_instance_info (thorough: also all four together and two proxied requests); also with the mock rejecting the first own host call(s) with 403 (retry paths); each operation parks at the guarded scheduling point in KeyKeeperSharedState::get_key/set_key and is released one at a time; states = complete schedules, transitions = released operations; every request the mock host receives is verified from its raw bytes under the key registered for the announced id; plus a SAMPLED family: 4 free-running threads sign 30000 (120000) requests each through hyper_client::build_request with three alternating key snapshots".to_string());
     res.assume("all cross-task state of the key lives in the key-keeper actor, whose handlers contain no await: the order of actor operations determines the behaviour");
     std::process::exit(res.finish());
 }
